@@ -88,7 +88,8 @@ def interleave(units: list, keyfn) -> list:
 
 def _worker_entry(modname, unit):
     faulthandler.enable()
-    faulthandler.dump_traceback_later(600, exit=True)
+    # hang detection (a unit is seconds to a few minutes of work; the margin is for a machine shared with other batches)
+    faulthandler.dump_traceback_later(int(os.environ.get("VERIF_UNIT_TIMEOUT", "1800")), exit=True)
     try:
         mod = sys.modules.get(modname) or __import__(modname, fromlist=["x"])
         t0 = time.time()
@@ -144,9 +145,9 @@ def run_units(modname: str, units: list, workers: int | None = None, wall_cap: f
         feed()
         last = time.time()
         while pending:
-            fin, _ = cf.wait(pending, timeout=900, return_when=cf.FIRST_COMPLETED)
+            fin, _ = cf.wait(pending, timeout=2000, return_when=cf.FIRST_COMPLETED)
             if not fin:
-                errors.append("no unit completed within 900 s")
+                errors.append("no unit completed within 2000 s")
                 for p in pending:
                     p.cancel()
                 break
